@@ -342,6 +342,26 @@ pub fn full_sweep(
 
 /// O5: the three shipped descriptions of the table agree.
 pub fn o5_shipped_data_agree(shipped: &[Entry], naif: &[Entry]) -> Result<(), String> {
+    // The three shipped descriptions could be changed consistently; the 28 leap seconds IERS has
+    // announced so far are also known to the harness as calendar dates (image::IERS_DATES).
+    let real = crate::image::real_table();
+    if shipped.len() < real.len() || shipped[..real.len()] != real[..] {
+        let k = shipped.iter().zip(&real).position(|(a, b)| a != b).unwrap_or(shipped.len().min(real.len()));
+        return Err(format!(
+            "shipped IERS list does not start with the 28 leap seconds announced by IERS: entry {k} is {:?}, announced {:?}",
+            shipped.get(k),
+            real.get(k)
+        ));
+    }
+    if let Some(extra) = shipped.get(real.len()) {
+        // a later bulletin may add entries, but only for dates that are still in the future of
+        // the last entry known here by more than a bulletin period
+        if extra.0 < crate::refdata::ntp_seconds_of_date(2026, 7, 1) {
+            return Err(format!(
+                "shipped IERS list carries an entry {extra:?} that IERS never announced (after the 2017 entry and before July 2026)"
+            ));
+        }
+    }
     if shipped != naif {
         return Err(format!(
             "shipped IERS list ({} entries) and NAIF kernel DELTA_AT ({} entries) disagree: first difference {:?}",
